@@ -51,11 +51,12 @@ static struct {
 	int nthreads;
 	int debug_on;
 	int churn;
+	int wait_var[RT_MAXT];   /* index of the variable a thread's current nsync_mu_wait depends on, -1 = none, -2 = NULL condition */
 	int cv_foreign[NCV];   /* this round, waits on cv[j] pass harness lock/unlock callbacks (a foreign lock to nsync) */
 } S;
 
 enum { CV_ACQ = 0, CV_ACQ_SLEPT, CV_TRY_OK, CV_TRY_FAIL, CV_CVWAIT_0, CV_CVWAIT_TO, CV_CVWAIT_CANCEL, CV_MUWAIT_0, CV_MUWAIT_TO, CV_MUWAIT_CANCEL,
-       CV_WAITN_READY, CV_WAITN_TO, CV_WAIT_SLEPT, CV_COND_EVALS, CV_DEBUG_CALLS, CV_NOWAKE, CV_SECTIONS, CV_UNTIMED, CV_CHURN };
+       CV_WAITN_READY, CV_WAITN_TO, CV_WAIT_SLEPT, CV_COND_EVALS, CV_DEBUG_CALLS, CV_NOWAKE, CV_SECTIONS, CV_UNTIMED, CV_CHURN, CV_IDLE };
 
 /* ---- oracles ----------------------------------------------------------------------- */
 static void enter (int writer, const char *how) {
@@ -184,11 +185,13 @@ static int do_act (int tid, const struct act *a, int held, int writer) {
 		default: break;
 		}
 		dl = mk_deadline (a);
+		sc_set (&S.wait_var[tid], f == NULL ? -2 : a->k);
 		leave (writer);
 		if (!a->timed && note == NULL) { api = "nsync_mu_wait"; RT_OP (api, nsync_mu_wait (&S.mu, f, arg, eq)); }
 		else { api = "nsync_mu_wait_with_deadline"; RT_OP_DLS (api, a->timed ? rt_ts_ns (dl) : 0, note == NULL, res = nsync_mu_wait_with_deadline (&S.mu, f, arg, eq, dl, note)); }
 		if (rt_op_sleeps ()) { rt_cover (CV_WAIT_SLEPT); rt_mark_nontrivial (); }
 		enter (writer, api);
+		sc_set (&S.wait_var[tid], -1);
 		check_reason (api, res, a->timed, dl, note);
 		now_true = (f == NULL) || S.v[a->k] != 0;
 		if ((res == 0) != (now_true != 0)) rt_violation ("muwait-result", api, "%s returned %d but its condition is %s at return", api, res, now_true ? "true" : "false");
@@ -301,6 +304,30 @@ static void body (int tid) {
 	epilogue ();
 }
 
+/* Mode B idle oracle: nothing is runnable, only timers are pending.  At this instant
+     - a thread asleep in a lock acquisition on S.mu while the word shows no holder and no spinlock sleeps on a free
+       mutex with nobody responsible for waking it (C02), and
+     - a thread asleep in nsync_mu_wait whose condition is true while the mutex is free was not woken by the release that
+       followed the change (C06) -- even if its own deadline would rescue it later.  */
+static void idle_check (void) {
+	uint32_t word = sc_word (&S.mu.word);
+	int t;
+	rt_cover (CV_IDLE);
+	if ((word & (SC_MU_ANY_LOCK | 2u)) != 0) return;
+	for (t = 0; t < S.nthreads; t++) {
+		const char *at;
+		if (!rt_thread_blocked (t)) continue;
+		at = rt_thread_at (t);
+		if (!rt_thread_timed (t) && !strcmp (at, "nsync_mu_lock_slow_") && rt_thread_lock_addr (t) == (const volatile void *) &S.mu.word)
+			rt_violation ("asleep-on-free-mutex", rt_thread_op (t), "nothing can run (only deadlines are pending), the mutex word %#x shows no holder, yet thread %d is asleep in %s waiting for it", word, t, rt_thread_op (t));
+		if (!strcmp (at, "nsync_mu_wait_with_deadline")) {
+			int k = sc_get (&S.wait_var[t]);
+			if (k >= 0 && S.v[k] != 0)
+				rt_violation ("cond-true-asleep", rt_thread_op (t), "nothing can run (only deadlines are pending), the mutex is free (word %#x) and v[%d] is true, yet thread %d is still asleep in %s on that condition", word, k, t, rt_thread_op (t));
+		}
+	}
+}
+
 /* ---- generation -------------------------------------------------------------------- */
 static int pick_dl (void) {
 	static const int b_dl[] = { 0, 100, 400, 1000, 3000, 10000, 100000, 1000000 };
@@ -349,6 +376,7 @@ static int setup (uint64_t seed) {
 	S.ctr = nsync_counter_new (1);
 	for (i = 0; i < NV; i++) S.v[i] = (int) rt_rand_n (2);
 	for (i = 0; i < NCV; i++) S.cv_foreign[i] = (rt_rand_n (4) == 0);
+	for (i = 0; i < RT_MAXT; i++) S.wait_var[i] = -1;
 	S.final_ = 0; S.W = 0; S.R = 0; S.ca = 0; S.cb = 0;
 	{ int maxt = (int) rt_param ("maxthreads", rt_mode_b () ? 4 : 6);
 	  if (maxt > rt_scen.max_threads) maxt = rt_scen.max_threads;
@@ -417,7 +445,7 @@ static void pinit (void) {
 	rt_cover_name (CV_MUWAIT_0, "muwait_true"); rt_cover_name (CV_MUWAIT_TO, "muwait_timedout"); rt_cover_name (CV_MUWAIT_CANCEL, "muwait_cancelled");
 	rt_cover_name (CV_WAITN_READY, "waitn_ready"); rt_cover_name (CV_WAITN_TO, "waitn_timedout"); rt_cover_name (CV_WAIT_SLEPT, "waits_that_slept");
 	rt_cover_name (CV_COND_EVALS, "condition_evaluations"); rt_cover_name (CV_DEBUG_CALLS, "debug_calls"); rt_cover_name (CV_NOWAKE, "unlock_without_wakeup");
-	rt_cover_name (CV_SECTIONS, "sections"); rt_cover_name (CV_UNTIMED, "untimed_waits"); rt_cover_name (CV_CHURN, "short_lived_threads");
+	rt_cover_name (CV_SECTIONS, "sections"); rt_cover_name (CV_UNTIMED, "untimed_waits"); rt_cover_name (CV_CHURN, "short_lived_threads"); rt_cover_name (CV_IDLE, "idle_instants_checked");
 }
 
-rt_scenario rt_scen = { "mu_mix", "C01", 6, &pinit, &setup, &body, &check, &teardown, &describe, NULL, &dump_state, NULL };
+rt_scenario rt_scen = { "mu_mix", "C01", 6, &pinit, &setup, &body, &check, &teardown, &describe, NULL, &dump_state, NULL, &idle_check };
